@@ -12,9 +12,10 @@ from .accessors import COORD_OPS, OPS
 from .common import Driver
 
 THEOREM_MODULES = ["PygacModel.Theorems.C12"]
-RULE = ("random accessor histories (quick: length <= 10, thorough <= 40) over ten reader configurations (POD GAC/LAC with "
+RULE = ("random accessor histories (quick: length <= 10, thorough <= 40) over thirteen reader configurations (POD GAC/LAC with "
         "clock drift applying, incl. a pass whose first line is within the clock error after UTC midnight and one with "
-        "gaps; POD with stale TLE / correction disabled / spacecraft without table; KLM GAC/LAC, tie-point-only "
+        "gaps, and two NOAA-14 passes whose first/last line lies within the clock error of a scan-motor interval end "
+        "(noisy pixels planted); POD with stale TLE / correction disabled / spacecraft without table; KLM GAC/LAC, tie-point-only "
         "coordinates), interleaved with other readers (other files, families, custom coefficients, alternative "
         "coefficient file) and with reader selections in the same process. Every output is digested bit by bit and "
         "compared with (i) the value from a fresh reader calling only that accessor, (ii) the value after get_lonlat "
